@@ -1688,7 +1688,7 @@ class VacancyMediated(object):
             symm = lambda M: 0.5 * (M + M.T)
             D0ss, D0sv = D0ss_nocorr, D0sv_nocorr
             L1ss = np.dot(np.dot(outer, etaSvec), biasSvec_nocorr) / self.N
-            L1sv = symm(np.dot(np.dot(outer, etaVvec), biasSvec_nocorr)) / self.N
+            L1sv = np.dot(np.dot(outer, biasSvec_nocorr), etaVvec) / self.N  # same index order as without origin states
             # change of the vacancy term: 2 db.eta0 + db.(eta - eta0) - eta0.domega.eta, plus the correlation part of the
             # bare vacancy term of the sites blocked by the solute (the bare part is already in D0vv)
             L1vv = (2 * symm(np.dot(np.dot(outer, eta0), biasVvec)) +
